@@ -481,12 +481,14 @@ run_batch(const BatchCfg &cfg, const CaseSource &src, JW *extra_cov)
                                         rec.v = v;
                                         rec.seed = run_seed;
                                         // gate 1: same plan again in-process, same log hash and same violation
+                                        // (a hang costs the watchdog time on every execution: re-run once, do not shrink)
+                                        const bool hang = v.oracle == "hang";
                                         RunResult r2 = exec_case(p, src);
-                                        if (r2.log_hash != r.log_hash || !find_viol(r2, v))
+                                        if ((!hang && r2.log_hash != r.log_hash) || !find_viol(r2, v))
                                                 rec.gate_ok = false;
                                         Plan mp = p;
                                         int reruns = 0;
-                                        if (rec.gate_ok)
+                                        if (rec.gate_ok && !hang)
                                                 mp = shrink_plan(p, src, v, &reruns);
                                         RunResult r3 = exec_case(mp, src);
                                         const Violation *mv = find_viol(r3, v);
